@@ -10,6 +10,8 @@
 //!        same directory (bootstrap_from_manifest), then total rows and the frames of the manifest.
 //!   mat_frames <hexpath>                frames of the materialized store at <path> (read with the real
 //!        MaterializedStore::read_frame): per frame  maxts.maxid:k/ts/id,k/ts/id,...
+//!   mat_catalog <hex cols dir> <name>   the catalog entry of <name> read from disk with MaterializationCatalog::load / get:
+//!        cat=<ts>.<id> (0.0 = None) rows=<row_count>   | NOENTRY
 //!   mat_layout <hex cols dir> <uid>     per shard directory, per numeric segment directory holding <uid>.zones:
 //!        mtime of the .zones file and per zone (ZoneMeta::load) timestamp_max, created_at and the k values of the
 //!        zone read with ColumnReader::load_for_zone.
@@ -19,7 +21,7 @@ use snel_db::engine::core::column::column_reader::ColumnReader;
 use snel_db::engine::core::read::flow::{BatchPool, BatchSchema, ColumnBatch};
 use snel_db::engine::core::read::result::ColumnSpec;
 use snel_db::engine::core::zone::zone_meta::ZoneMeta;
-use snel_db::engine::materialize::{batch_schema_to_snapshots, HighWaterMark, MaterializedSink, MaterializedStore};
+use snel_db::engine::materialize::{batch_schema_to_snapshots, HighWaterMark, MaterializationCatalog, MaterializedSink, MaterializedStore};
 use snel_db::engine::types::ScalarValue;
 use std::path::{Path, PathBuf};
 use std::sync::Arc;
@@ -118,6 +120,19 @@ fn frames_probe(t: &[String]) -> String {
     if out.is_empty() { "EMPTY".into() } else { out.join(" ") }
 }
 
+fn catalog_probe(t: &[String]) -> String {
+    let dir = PathBuf::from(String::from_utf8(unhex(&t[1])).unwrap());
+    let cat = match MaterializationCatalog::load(&dir) { Ok(c) => c, Err(e) => return format!("ERR {e}") };
+    match cat.get(&t[2]) {
+        Ok(Some(e)) => {
+            let m = e.high_water_mark.unwrap_or_default();
+            format!("cat={}.{} rows={}", m.timestamp, m.event_id, e.row_count)
+        }
+        Ok(None) => "NOENTRY".into(),
+        Err(e) => format!("ERR {e}"),
+    }
+}
+
 fn mtime_secs(p: &Path) -> u64 {
     std::fs::metadata(p).ok().and_then(|m| m.modified().ok()).and_then(|t| t.duration_since(std::time::UNIX_EPOCH).ok()).map(|d| d.as_secs()).unwrap_or(0)
 }
@@ -165,6 +180,7 @@ pub fn run(t: &[String]) -> String {
         "mat_sink" => sink_probe(t),
         "mat_frames" => frames_probe(t),
         "mat_layout" => layout_probe(t),
+        "mat_catalog" => catalog_probe(t),
         _ => "UNKNOWN_PROBE".into(),
     }
 }
